@@ -8,3 +8,7 @@ open XotModel.Props
 #print axioms C02_namespace_uri_false
 #print axioms C02_local_xmlns_false
 #print axioms C02_empty_cdata_false
+#print axioms C02_merge
+#print axioms C02_scope_nearest
+#print axioms C02_scope_base
+#print axioms C02_scope_unprefixed_attribute
